@@ -233,6 +233,15 @@ theorem step_inv (s : Sys) (stp : Step) (h : Inv s) : Inv (step s stp) := by
       exact ⟨by simp only [hc]; omega, by simp [hown, hr0], h1, fun hr => by simp only at hr; omega, hst, hp⟩
     · simp only [ne_eq, hown, not_false_eq_true, if_true]
       exact h'
+  | auxBeginBlocking =>
+    simp only [step, Mrsw.beginReadBlocking, Mrsw.readEnabled]
+    by_cases hown : s.m.owner = ""
+    · simp only [hown, beq_self_eq_true, if_true]
+      have hr0 := hw0.1 hown
+      exact ⟨by simp only [hc]; omega, by simp [hown, hr0], h1, fun hr => by simp only at hr; omega, hst, hp⟩
+    · have : (s.m.owner == "") = false := by simpa using hown
+      simp only [this, Bool.false_eq_true, if_false]
+      exact h'
   | auxEnd =>
     simp only [step]
     split
